@@ -59,6 +59,42 @@ REF.update({
 })
 
 
+def metrics_ref(head, arr, hs):
+    hb = hs * 8
+    arr = max(arr, 2)
+    head = max(head, 4)
+    head = min(head, hb)
+    if (hb - head) % arr:
+        head += (hb - head) % arr
+    return [head, (1 << head) & M64, arr, (1 << arr) & M64]
+
+
+REF["metrics_make"] = metrics_ref
+
+
+def compare_feldman(inp, impl, model):
+    w = inp.split()
+    if w[0] == "metrics_make":
+        head, arr, hs = int(w[1]), int(w[2]), int(w[3])
+        if metrics_ref(head, arr, hs)[0] >= 64:
+            return ("@normalised-head-width-64: metrics::make computes size_t(1) << 64 (undefined; on x86 the head array gets 1 slot while 64 bits are cut for its index) "
+                    "for head_bits=%d array_bits=%d hash_size=%d" % (head, arr, hs))
+        bad = compare_eval(inp, impl, model)
+        if bad:
+            return bad
+        hl, hsz, al, asz = [int(v) for v in impl]
+        if al < 2 or hl > 8 * hs or (8 * hs - hl) % al != 0:
+            return "normalised layout does not consume the hash bits exactly: head=%d array=%d hash_bits=%d" % (hl, al, 8 * hs)
+        return None
+    if w[0] == "feldman_insert":
+        n = int(w[4])
+        ok, found, dup = [int(v) for v in impl]
+        if ok != n or found != n or dup != 1:
+            return "FeldmanHashSet lost or rejected a hash: %d distinct hashes, %d inserted, %d found, duplicate rejected=%d" % (n, ok, found, dup)
+        return None
+    return None
+
+
 def compare_eval(inp, impl, model):
     """impl/model: token lists; model has the ub flag as last token."""
     w = inp.split()
